@@ -551,6 +551,67 @@ pub fn literals() -> Vec<Lit> {
             out.push(Lit { label: format!("string/double/{}{}", label, if prefix { "/typed" } else { "" }), type_text: "WSTRING", pieces: p, expect: Expect::Value(n("Str", vec![("v", s(body))])), address: false });
         }
     }
+    // ---- reals: every body up to length 6 over 0 1 5 . E e + - _ that is a real literal of B.1.2.1
+    // (integer '.' integer [exponent], integer = digit {['_'] digit}); the value is the nearest f64 of the text
+    {
+        fn integer(b: &[u8]) -> bool {
+            !b.is_empty() && b[0].is_ascii_digit() && b[b.len() - 1].is_ascii_digit() && b.iter().all(|c| c.is_ascii_digit() || *c == b'_') && !b.windows(2).any(|w| w == b"__")
+        }
+        fn real(b: &[u8]) -> bool {
+            let dot = match b.iter().position(|c| *c == b'.') {
+                Some(d) => d,
+                None => return false,
+            };
+            if !integer(&b[..dot]) {
+                return false;
+            }
+            let rest = &b[dot + 1..];
+            match rest.iter().position(|c| *c == b'E' || *c == b'e') {
+                None => integer(rest),
+                Some(e) => {
+                    let exp = &rest[e + 1..];
+                    let exp = if exp.first() == Some(&b'+') || exp.first() == Some(&b'-') { &exp[1..] } else { exp };
+                    integer(&rest[..e]) && integer(exp)
+                }
+            }
+        }
+        let alpha: [u8; 9] = [b'0', b'1', b'5', b'.', b'E', b'e', b'+', b'-', b'_'];
+        let mut level: Vec<Vec<u8>> = vec![vec![]];
+        for _len in 0..6 {
+            let mut next = Vec::with_capacity(level.len() * alpha.len());
+            for b in &level {
+                for a in alpha {
+                    // a literal begins with a digit
+                    if b.is_empty() && !a.is_ascii_digit() {
+                        continue;
+                    }
+                    let mut v = b.clone();
+                    v.push(a);
+                    next.push(v);
+                }
+            }
+            for body in &next {
+                if !real(body) {
+                    continue;
+                }
+                let text = String::from_utf8(body.clone()).unwrap();
+                let norm: String = text.chars().filter(|c| *c != '_').collect();
+                let val: f64 = norm.parse().unwrap();
+                let expect = if val.is_infinite() { Expect::Reject("real overflow") } else { Expect::Value(n("Real", vec![("v", NT::F(val.to_bits())), ("type", NT::Nil)])) };
+                let cls = if val == 0.0 && (text.contains('E') || text.contains('e')) {
+                    "zero-with-exponent"
+                } else if text.contains('_') {
+                    "underscores"
+                } else if text.contains('E') || text.contains('e') {
+                    "exponent"
+                } else {
+                    "plain"
+                };
+                out.push(Lit { label: format!("real/body/{}", cls), type_text: "LREAL", pieces: vec![text], expect, address: false });
+            }
+            level = next;
+        }
+    }
     // ---- strings: the dollar escapes of IEC 61131-3 table 5/6 ($$ $' $" $L $N $P $R $T and hexadecimal character codes)
     let single_esc: Vec<(&str, &str, Option<&str>)> = vec![
         ("dollar", "a$$b", Some("a$b")),
